@@ -20,6 +20,8 @@ pub enum Slot {
     R1,
     S1,
     D1(u16),
+    /// +1 on one d1 coordinate and -1 on another (the sum of the d1 vector is unchanged); degree >= 2
+    D1Pair(u16, u16),
 }
 
 #[derive(Clone, Debug, Serialize, Deserialize)]
@@ -47,9 +49,9 @@ pub struct HistSpec {
 }
 
 fn slot_strategy() -> impl Strategy<Value = Slot> {
-    prop_oneof![Just(Slot::R1), Just(Slot::S1), any::<u16>().prop_map(Slot::D1), any::<u16>().prop_map(Slot::D1)]
+    prop_oneof![Just(Slot::R1), Just(Slot::S1), any::<u16>().prop_map(Slot::D1), any::<u16>().prop_map(Slot::D1), (any::<u16>(), any::<u16>()).prop_map(|(a, b)| Slot::D1Pair(a, b))]
 }
-fn hist_strategy() -> impl Strategy<Value = HistSpec> {
+pub fn hist_strategy() -> impl Strategy<Value = HistSpec> {
     (
         1u8..=3,
         1usize..=6,
@@ -82,6 +84,20 @@ fn edit(m: &Member<F>, f: impl FnOnce(&mut Proof)) -> Result<RangeProof<FP>, Str
     let mut pf = Proof::parse_layout(&m.proof.to_bytes()).map_err(|e| format!("{:?}", e))?;
     f(&mut pf);
     RangeProof::<FP>::from_bytes(&pf.encode()).map_err(|e| format!("re-decode: {:?}", e))
+}
+fn bump_pair(pf: &mut Proof, a: u16, b: u16) {
+    let n = pf.d1.len();
+    if n < 2 {
+        add(&mut pf.d1[0], Scalar::ONE);
+        return;
+    }
+    let i = pick(a, n);
+    let mut j = pick(b, n);
+    if j == i {
+        j = (j + 1) % n;
+    }
+    add(&mut pf.d1[i], Scalar::ONE);
+    add(&mut pf.d1[j], -Scalar::ONE);
 }
 fn add(b: &mut [u8; 32], d: Scalar) {
     *b = (Scalar::from_bytes_mod_order(*b) + d).to_bytes();
@@ -157,7 +173,17 @@ fn weights_grouped(ms: &[Member<F>], proofs: &[RangeProof<FP>], action: VerifyAc
     Ok((0..ms.len()).map(|i| -res.coef(marker(i))).collect())
 }
 
-pub fn oracle(_ctx: &RunCtx, spec: &HistSpec, log: &mut CaseLog) -> Result<(), String> {
+pub fn oracle(ctx: &RunCtx, spec: &HistSpec, log: &mut CaseLog) -> Result<(), String> {
+    oracle_impl(ctx, spec, log, true)
+}
+
+/// The same histories judged for ACCEPTANCE only (used by C02: a batch accepted although no member satisfies the relation);
+/// how the factors move is C08's subject and is not judged here.
+pub fn oracle_acceptance_only(ctx: &RunCtx, spec: &HistSpec, log: &mut CaseLog) -> Result<(), String> {
+    oracle_impl(ctx, spec, log, false)
+}
+
+fn oracle_impl(_ctx: &RunCtx, spec: &HistSpec, log: &mut CaseLog, judge_factors: bool) -> Result<(), String> {
     F::reset_case();
     let bits = BITS[spec.bits_idx as usize % BITS.len()].max(2);
     let ms: Vec<Member<F>> = spec
@@ -193,7 +219,7 @@ pub fn oracle(_ctx: &RunCtx, spec: &HistSpec, log: &mut CaseLog) -> Result<(), S
     // (1) every factor is nonzero
     let w0 = weights(&ms, &honest, action)?;
     for (i, w) in w0.iter().enumerate() {
-        if *w == Scalar::ZERO {
+        if judge_factors && *w == Scalar::ZERO {
             return Err(format!("the factor of member {} of {} in the batch equation is zero", i, n));
         }
     }
@@ -223,12 +249,13 @@ pub fn oracle(_ctx: &RunCtx, spec: &HistSpec, log: &mut CaseLog) -> Result<(), S
                         let k = pick(*k, pf.d1.len());
                         add(&mut pf.d1[k], Scalar::ONE)
                     },
+                    Slot::D1Pair(a, b) => bump_pair(pf, *a, *b),
                 })?;
                 let mut next = current.clone();
                 next[i] = changed;
                 let after = weights(&ms, &next, action)?;
                 for (x, w) in after.iter().enumerate() {
-                    if *w == Scalar::ZERO {
+                    if judge_factors && *w == Scalar::ZERO {
                         return Err(format!("the factor of member {} became zero after changing a response scalar of member {}", x, i));
                     }
                 }
@@ -237,7 +264,7 @@ pub fn oracle(_ctx: &RunCtx, spec: &HistSpec, log: &mut CaseLog) -> Result<(), S
                     if j == i {
                         continue;
                     }
-                    if before[i] * after[j] == after[i] * before[j] {
+                    if judge_factors && before[i] * after[j] == after[i] * before[j] {
                         return Err(format!(
                             "the ratio of the factors of members {} and {} did not change when response scalar {:?} of member {} changed (batch of {})",
                             i, j, slot, i, n
@@ -282,7 +309,7 @@ pub fn oracle(_ctx: &RunCtx, spec: &HistSpec, log: &mut CaseLog) -> Result<(), S
                         k, i, i, j, j, n
                     ));
                 }
-                if res.coef(g_id(k)) == Scalar::ZERO && current == honest {
+                if judge_factors && res.coef(g_id(k)) == Scalar::ZERO && current == honest {
                     return Err(format!(
                         "offsets computed from previously observed factors cancel on blinding generator {} (members {} and {})",
                         k, i, j
@@ -318,6 +345,7 @@ pub fn oracle(_ctx: &RunCtx, spec: &HistSpec, log: &mut CaseLog) -> Result<(), S
                             let k = pick(*k, pf.d1.len());
                             add(&mut pf.d1[k], Scalar::ONE)
                         },
+                        Slot::D1Pair(a, b) => bump_pair(pf, *a, *b),
                     })?;
                 }
                 let after = weights_grouped(&ms, &next, action, Some((a, b)))?;
@@ -326,7 +354,7 @@ pub fn oracle(_ctx: &RunCtx, spec: &HistSpec, log: &mut CaseLog) -> Result<(), S
                         continue;
                     }
                     // before[a] / after[a] hold the SUM of the two copies' factors
-                    if before[a] * after[x] == after[a] * before[x] {
+                    if judge_factors && before[a] * after[x] == after[a] * before[x] {
                         return Err(format!(
                             "the ratio of the factors of members {} and {} did not change when response scalar {:?} changed in both copies ({} and {}) of a repeated member (batch of {})",
                             a, x, slot, a, b, n
@@ -352,6 +380,9 @@ pub fn oracle(_ctx: &RunCtx, spec: &HistSpec, log: &mut CaseLog) -> Result<(), S
                 // were byte-identical as well (shared marker): sum = w_a + w_b
                 let seen = weights_grouped(&ms, &current, action, Some((a, b)))?;
                 if seen[a] == Scalar::ZERO {
+                    if !judge_factors {
+                        continue;
+                    }
                     return Err(format!("the factors of the two copies ({}, {}) of a repeated member sum to zero", a, b));
                 }
                 let dp = -(seen[q] * dq) * seen[a].invert();
